@@ -36,7 +36,9 @@ RULE = (
     "per vector component), damping None or 10^[-8,2], forces at the data or at a separate set of ceil(n/4)..n points, Poisson ratio in [-1,1], "
     "mindist 0 or small (Spline) / >0 (VectorSpline2D); MAGNITUDE classes: all weights times 1e-15, 1e-12, 1e-9, 1e-6, 1, 1e6, 1e12 (stream wmag: every "
     "estimator configuration x every magnitude, undamped ones also against the fit with the unscaled weights) and all data times 1e-15..1e15; undamped "
-    "fits with fewer forces than data and non-uniform weights are counted as their own class; SPELLINGS stream: damping (1, 10, 100 as int, np.int64, np.int32, np.float32, np.float64, 0-d arrays), degree, "
+    "fits with fewer forces than data and non-uniform weights are counted as their own class; DUPLICATES stream: repeated stations (5-40 % of the data at locations that occur two or more times, different values) "
+    "fitted by Spline / VectorSpline2D with damping 1e-8..1e2 and the default force layout - one force under every datum, checked by the force_layout "
+    "monitor, reference on the full duplicate-column design; SPELLINGS stream: damping (1, 10, 100 as int, np.int64, np.int32, np.float32, np.float64, 0-d arrays), degree, "
     "poisson (0, -1, 1 as ints), mindist given as Python int / numpy integer / numpy floating / 0-d array, each against the twin built with the plain "
     "float (reference: float(value)); forces may also be the data points in another order; HISTORY stream: the same object fitted again (after "
     "predict / grid / filter / score / jacobian or directly; other locations, smaller / equal / larger size, other layouts; the caller's buffers re-used "
@@ -65,14 +67,17 @@ ASSUMPTIONS = [
     "the bound 50*eps*|outlier| is decided only when the reference cross-leverage max_q |j_q M^-1 j_k| of the datum is <= 25 (the exact influence is "
     "eps * leverage * residual, so the bound then has a factor 2 of slack); higher-leverage data are skipped and counted",
     "weights are strictly positive and finite, data finite (the statement's quantifier); other fits are skipped",
+    "default force layout (force_coords=None): one force under every datum, in data order, also when data share a location (force_layout monitor); "
+    "the reference keeps the identical columns of such a design - with damping the problem is well posed; undamped fits of data with repeated "
+    "locations are singular and are not generated",
     "the reference uses the weights exactly as given at every magnitude (damped fits depend on it); undamped fits are additionally compared with the "
     "fit for the unscaled relative weights (fit(w) == fit(c w), c spanning 1e-15..1e12)",
     "coordinates, data and weights are flattened in C (row-major) order of the logical arrays whatever their memory layout (what check_fit_input / "
     "n_1d_arrays document via np.ravel); the reference takes np.asarray(arg).ravel() of every argument",
 ]
 FLOORS = {
-    "quick": {'eval:optimality': 1754, 'eval:prediction_agreement': 2374, 'eval:weight_scale_invariance': 126, 'eval:vanishing_weight': 96, 'fit:trend': 450, 'fit:spline': 480, 'fit:vspline': 300, 'informative_undamped_kappa_ge_1e6': 140, 'distinct_nontrivial': 1200, 'layout:weights:2d_fortran': 50, 'layout:weights:2d_transposed_view': 50, 'layout:weights:2d_strided': 55, 'layout:weights:2d_negative_stride': 55, 'layout:weights:2d_readonly_fortran': 50, 'layout:weights:1d_series': 80, 'layout:data:2d_fortran': 65, 'layout:data:2d_transposed_view': 65, 'layout:data:2d_strided': 75, 'layout:data:1d_series': 95, 'layout:coordinates:2d_fortran': 120, 'layout:coordinates:2d_transposed_view': 110, 'layout:coordinates:1d_series': 160, 'layout:force_coords:2d_fortran': 10, 'layout:weights_laid_out_differently_from_data': 540, 'class:undamped_fewer_forces_than_data_nonuniform_weights:spline': 159, 'class:undamped_fewer_forces_than_data_nonuniform_weights:vspline': 135, 'data_magnitude:1e+00': 497, 'data_magnitude:1e+03': 48, 'data_magnitude:1e+06': 46, 'data_magnitude:1e+09': 40, 'data_magnitude:1e+12': 40, 'data_magnitude:1e+15': 42, 'data_magnitude:1e-03': 36, 'data_magnitude:1e-06': 42, 'data_magnitude:1e-09': 39, 'data_magnitude:1e-12': 35, 'data_magnitude:1e-15': 38, 'weight_magnitude:1e+00': 324, 'weight_magnitude:1e+06': 38, 'weight_magnitude:1e+12': 36, 'weight_magnitude:1e-06': 28, 'weight_magnitude:1e-09': 38, 'weight_magnitude:1e-12': 37, 'weight_magnitude:1e-15': 34, 'weight_magnitude_class:spline_damped:1e+00': 2, 'weight_magnitude_class:spline_damped:1e+06': 2, 'weight_magnitude_class:spline_damped:1e+12': 2, 'weight_magnitude_class:spline_damped:1e-06': 2, 'weight_magnitude_class:spline_damped:1e-09': 2, 'weight_magnitude_class:spline_damped:1e-12': 2, 'weight_magnitude_class:spline_damped:1e-15': 2, 'weight_magnitude_class:spline_damped_fewer_forces:1e+00': 2, 'weight_magnitude_class:spline_damped_fewer_forces:1e+06': 2, 'weight_magnitude_class:spline_damped_fewer_forces:1e+12': 2, 'weight_magnitude_class:spline_damped_fewer_forces:1e-06': 2, 'weight_magnitude_class:spline_damped_fewer_forces:1e-09': 2, 'weight_magnitude_class:spline_damped_fewer_forces:1e-12': 2, 'weight_magnitude_class:spline_damped_fewer_forces:1e-15': 2, 'weight_magnitude_class:spline_undamped_fewer_forces:1e+00': 2, 'weight_magnitude_class:spline_undamped_fewer_forces:1e+06': 2, 'weight_magnitude_class:spline_undamped_fewer_forces:1e+12': 2, 'weight_magnitude_class:spline_undamped_fewer_forces:1e-06': 2, 'weight_magnitude_class:spline_undamped_fewer_forces:1e-09': 2, 'weight_magnitude_class:spline_undamped_fewer_forces:1e-12': 2, 'weight_magnitude_class:spline_undamped_fewer_forces:1e-15': 2, 'weight_magnitude_class:trend:1e+00': 2, 'weight_magnitude_class:trend:1e+06': 2, 'weight_magnitude_class:trend:1e+12': 2, 'weight_magnitude_class:trend:1e-06': 2, 'weight_magnitude_class:trend:1e-09': 2, 'weight_magnitude_class:trend:1e-12': 2, 'weight_magnitude_class:trend:1e-15': 2, 'weight_magnitude_class:vspline_damped:1e+00': 2, 'weight_magnitude_class:vspline_damped:1e+06': 2, 'weight_magnitude_class:vspline_damped:1e+12': 2, 'weight_magnitude_class:vspline_damped:1e-06': 2, 'weight_magnitude_class:vspline_damped:1e-09': 2, 'weight_magnitude_class:vspline_damped:1e-12': 2, 'weight_magnitude_class:vspline_damped:1e-15': 2, 'weight_magnitude_class:vspline_undamped_fewer_forces:1e+00': 2, 'weight_magnitude_class:vspline_undamped_fewer_forces:1e+06': 2, 'weight_magnitude_class:vspline_undamped_fewer_forces:1e+12': 2, 'weight_magnitude_class:vspline_undamped_fewer_forces:1e-06': 2, 'weight_magnitude_class:vspline_undamped_fewer_forces:1e-09': 2, 'weight_magnitude_class:vspline_undamped_fewer_forces:1e-12': 2, 'weight_magnitude_class:vspline_undamped_fewer_forces:1e-15': 2, 'weight_scale_invariance:magnitude:1e+06': 5, 'weight_scale_invariance:magnitude:1e+12': 5, 'weight_scale_invariance:magnitude:1e-06': 6, 'weight_scale_invariance:magnitude:1e-09': 5, 'weight_scale_invariance:magnitude:1e-12': 5, 'weight_scale_invariance:magnitude:1e-15': 5, 'history:error_then_fit:spline': 4, 'history:error_then_fit:trend': 4, 'history:error_then_fit:vspline': 4, 'history:reconfigure_after_use:spline': 4, 'history:reconfigure_after_use:trend': 4, 'history:reconfigure_after_use:vspline': 4, 'history:reconfigure_before_use:spline': 4, 'history:reconfigure_before_use:trend': 4, 'history:reconfigure_before_use:vspline': 4, 'history:reconfigure_held_in_chain:spline': 4, 'history:reconfigure_held_in_chain:trend': 4, 'history:reconfigure_held_in_chain:vspline': 4, 'history:refit_after_resetting_forces:spline': 4, 'history:refit_after_resetting_forces:vspline': 4, 'history:refit_after_use:spline': 4, 'history:refit_after_use:trend': 9, 'history:refit_after_use:vspline': 4, 'history:refit_directly:spline': 4, 'history:refit_directly:trend': 4, 'history:refit_directly:vspline': 4, 'history:refit_same_arrays_new_contents:spline': 4, 'history:refit_same_arrays_new_contents:trend': 4, 'history:refit_same_arrays_new_contents:vspline': 4, 'history:size_change:equal': 15, 'history:size_change:larger': 13, 'history:size_change:smaller': 14, 'history:trend_degree_down': 5, 'history:trend_degree_up': 5, 'history:use:filter': 5, 'history:use:grid': 6, 'history:use:jacobian': 5, 'history:use:nothing': 4, 'history:use:predict_data': 8, 'history:use:predict_elsewhere': 7, 'history:use:score': 6, 'history:via_attribute_assignment': 16, 'history:via_set_params': 15, 'fit_raised:vspline:ValueError': 4, 'eval:equivalent_spelling': 72, 'forces:spline:at_data': 104, 'forces:spline:data_points_in_another_order': 21, 'forces:spline:grid': 104, 'forces:spline:moved_subset': 102, 'forces:vspline:at_data': 53, 'forces:vspline:data_points_in_another_order': 10, 'forces:vspline:grid': 58, 'forces:vspline:moved_subset': 42, 'spelling:spline_damping:float32(0.5)': 1, 'spelling:spline_damping:float32(8.0)': 1, 'spelling:spline_damping:float64(0.25)': 1, 'spelling:spline_damping:int(1.0)': 1, 'spelling:spline_damping:int(10.0)': 1, 'spelling:spline_damping:int(100.0)': 1, 'spelling:spline_damping:int32(1.0)': 1, 'spelling:spline_damping:int64(10.0)': 1, 'spelling:spline_damping:ndarray(10.0)': 1, 'spelling:spline_damping:ndarray(3.0)': 1, 'spelling:spline_mindist:0-d array': 2, 'spelling:spline_mindist:int': 3, 'spelling:spline_mindist:np.float32': 2, 'spelling:spline_mindist:np.int64': 3, 'spelling:trend_degree:int32': 3, 'spelling:trend_degree:int64': 3, 'spelling:trend_degree:ndarray': 2, 'spelling:trend_degree:uint8': 2, 'spelling:vspline_damping:float32(0.5)': 1, 'spelling:vspline_damping:float32(8.0)': 1, 'spelling:vspline_damping:float64(0.25)': 1, 'spelling:vspline_damping:int(1.0)': 1, 'spelling:vspline_damping:int(10.0)': 1, 'spelling:vspline_damping:int(100.0)': 1, 'spelling:vspline_damping:int32(1.0)': 1, 'spelling:vspline_damping:int64(10.0)': 1, 'spelling:vspline_damping:ndarray(10.0)': 1, 'spelling:vspline_damping:ndarray(3.0)': 1, 'spelling:vspline_mindist:0-d array': 2, 'spelling:vspline_mindist:int': 3, 'spelling:vspline_mindist:np.float32': 2, 'spelling:vspline_mindist:np.int64': 3, 'spelling:vspline_poisson:float32(0.5)': 1, 'spelling:vspline_poisson:int(-1.0)': 1, 'spelling:vspline_poisson:int(0.0)': 1, 'spelling:vspline_poisson:int(1.0)': 1, 'spelling:vspline_poisson:int64(0.0)': 1, 'spelling:vspline_poisson:int64(1.0)': 1, 'spelling:vspline_poisson:ndarray(-1.0)': 1, 'spelling:vspline_poisson:ndarray(0.25)': 1},
-    "thorough": {'eval:optimality': 39474, 'eval:prediction_agreement': 53424, 'eval:weight_scale_invariance': 2844, 'eval:vanishing_weight': 2160, 'fit:trend': 11250, 'fit:spline': 12000, 'fit:vspline': 7500, 'informative_undamped_kappa_ge_1e6': 3500, 'distinct_nontrivial': 30000, 'layout:weights:2d_fortran': 1250, 'layout:weights:2d_transposed_view': 1250, 'layout:weights:2d_strided': 1375, 'layout:weights:2d_negative_stride': 1375, 'layout:weights:2d_readonly_fortran': 1250, 'layout:weights:1d_series': 2000, 'layout:data:2d_fortran': 1625, 'layout:data:2d_transposed_view': 1625, 'layout:data:2d_strided': 1875, 'layout:data:1d_series': 2375, 'layout:coordinates:2d_fortran': 3000, 'layout:coordinates:2d_transposed_view': 2750, 'layout:coordinates:1d_series': 4000, 'layout:force_coords:2d_fortran': 250, 'layout:weights_laid_out_differently_from_data': 13500, 'class:undamped_fewer_forces_than_data_nonuniform_weights:spline': 3577, 'class:undamped_fewer_forces_than_data_nonuniform_weights:vspline': 3037, 'data_magnitude:1e+00': 11182, 'data_magnitude:1e+03': 1080, 'data_magnitude:1e+06': 1035, 'data_magnitude:1e+09': 900, 'data_magnitude:1e+12': 900, 'data_magnitude:1e+15': 945, 'data_magnitude:1e-03': 810, 'data_magnitude:1e-06': 945, 'data_magnitude:1e-09': 877, 'data_magnitude:1e-12': 787, 'data_magnitude:1e-15': 855, 'weight_magnitude:1e+00': 7290, 'weight_magnitude:1e+06': 855, 'weight_magnitude:1e+12': 810, 'weight_magnitude:1e-06': 630, 'weight_magnitude:1e-09': 855, 'weight_magnitude:1e-12': 832, 'weight_magnitude:1e-15': 765, 'weight_magnitude_class:spline_damped:1e+00': 45, 'weight_magnitude_class:spline_damped:1e+06': 45, 'weight_magnitude_class:spline_damped:1e+12': 45, 'weight_magnitude_class:spline_damped:1e-06': 45, 'weight_magnitude_class:spline_damped:1e-09': 45, 'weight_magnitude_class:spline_damped:1e-12': 45, 'weight_magnitude_class:spline_damped:1e-15': 45, 'weight_magnitude_class:spline_damped_fewer_forces:1e+00': 45, 'weight_magnitude_class:spline_damped_fewer_forces:1e+06': 45, 'weight_magnitude_class:spline_damped_fewer_forces:1e+12': 45, 'weight_magnitude_class:spline_damped_fewer_forces:1e-06': 45, 'weight_magnitude_class:spline_damped_fewer_forces:1e-09': 45, 'weight_magnitude_class:spline_damped_fewer_forces:1e-12': 45, 'weight_magnitude_class:spline_damped_fewer_forces:1e-15': 45, 'weight_magnitude_class:spline_undamped_fewer_forces:1e+00': 45, 'weight_magnitude_class:spline_undamped_fewer_forces:1e+06': 45, 'weight_magnitude_class:spline_undamped_fewer_forces:1e+12': 45, 'weight_magnitude_class:spline_undamped_fewer_forces:1e-06': 45, 'weight_magnitude_class:spline_undamped_fewer_forces:1e-09': 45, 'weight_magnitude_class:spline_undamped_fewer_forces:1e-12': 45, 'weight_magnitude_class:spline_undamped_fewer_forces:1e-15': 45, 'weight_magnitude_class:trend:1e+00': 45, 'weight_magnitude_class:trend:1e+06': 45, 'weight_magnitude_class:trend:1e+12': 45, 'weight_magnitude_class:trend:1e-06': 45, 'weight_magnitude_class:trend:1e-09': 45, 'weight_magnitude_class:trend:1e-12': 45, 'weight_magnitude_class:trend:1e-15': 45, 'weight_magnitude_class:vspline_damped:1e+00': 45, 'weight_magnitude_class:vspline_damped:1e+06': 45, 'weight_magnitude_class:vspline_damped:1e+12': 45, 'weight_magnitude_class:vspline_damped:1e-06': 45, 'weight_magnitude_class:vspline_damped:1e-09': 45, 'weight_magnitude_class:vspline_damped:1e-12': 45, 'weight_magnitude_class:vspline_damped:1e-15': 45, 'weight_magnitude_class:vspline_undamped_fewer_forces:1e+00': 45, 'weight_magnitude_class:vspline_undamped_fewer_forces:1e+06': 45, 'weight_magnitude_class:vspline_undamped_fewer_forces:1e+12': 45, 'weight_magnitude_class:vspline_undamped_fewer_forces:1e-06': 45, 'weight_magnitude_class:vspline_undamped_fewer_forces:1e-09': 45, 'weight_magnitude_class:vspline_undamped_fewer_forces:1e-12': 45, 'weight_magnitude_class:vspline_undamped_fewer_forces:1e-15': 45, 'weight_scale_invariance:magnitude:1e+06': 112, 'weight_scale_invariance:magnitude:1e+12': 112, 'weight_scale_invariance:magnitude:1e-06': 135, 'weight_scale_invariance:magnitude:1e-09': 112, 'weight_scale_invariance:magnitude:1e-12': 112, 'weight_scale_invariance:magnitude:1e-15': 112, 'history:error_then_fit:spline': 80, 'history:error_then_fit:trend': 80, 'history:error_then_fit:vspline': 80, 'history:reconfigure_after_use:spline': 80, 'history:reconfigure_after_use:trend': 80, 'history:reconfigure_after_use:vspline': 80, 'history:reconfigure_before_use:spline': 80, 'history:reconfigure_before_use:trend': 80, 'history:reconfigure_before_use:vspline': 80, 'history:reconfigure_held_in_chain:spline': 80, 'history:reconfigure_held_in_chain:trend': 80, 'history:reconfigure_held_in_chain:vspline': 80, 'history:refit_after_resetting_forces:spline': 80, 'history:refit_after_resetting_forces:vspline': 80, 'history:refit_after_use:spline': 80, 'history:refit_after_use:trend': 180, 'history:refit_after_use:vspline': 80, 'history:refit_directly:spline': 80, 'history:refit_directly:trend': 80, 'history:refit_directly:vspline': 80, 'history:refit_same_arrays_new_contents:spline': 80, 'history:refit_same_arrays_new_contents:trend': 80, 'history:refit_same_arrays_new_contents:vspline': 80, 'history:size_change:equal': 337, 'history:size_change:larger': 303, 'history:size_change:smaller': 330, 'history:trend_degree_down': 128, 'history:trend_degree_up': 114, 'history:use:filter': 114, 'history:use:grid': 135, 'history:use:jacobian': 114, 'history:use:nothing': 108, 'history:use:predict_data': 189, 'history:use:predict_elsewhere': 168, 'history:use:score': 141, 'history:via_attribute_assignment': 378, 'history:via_set_params': 351, 'fit_raised:vspline:ValueError': 80, 'eval:equivalent_spelling': 1620, 'forces:spline:at_data': 2080, 'forces:spline:data_points_in_another_order': 420, 'forces:spline:grid': 2080, 'forces:spline:moved_subset': 2040, 'forces:vspline:at_data': 1060, 'forces:vspline:data_points_in_another_order': 200, 'forces:vspline:grid': 1160, 'forces:vspline:moved_subset': 840, 'spelling:spline_damping:float32(0.5)': 20, 'spelling:spline_damping:float32(8.0)': 20, 'spelling:spline_damping:float64(0.25)': 20, 'spelling:spline_damping:int(1.0)': 20, 'spelling:spline_damping:int(10.0)': 20, 'spelling:spline_damping:int(100.0)': 20, 'spelling:spline_damping:int32(1.0)': 20, 'spelling:spline_damping:int64(10.0)': 20, 'spelling:spline_damping:ndarray(10.0)': 20, 'spelling:spline_damping:ndarray(3.0)': 20, 'spelling:spline_mindist:0-d array': 40, 'spelling:spline_mindist:int': 60, 'spelling:spline_mindist:np.float32': 40, 'spelling:spline_mindist:np.int64': 60, 'spelling:trend_degree:int32': 60, 'spelling:trend_degree:int64': 60, 'spelling:trend_degree:ndarray': 40, 'spelling:trend_degree:uint8': 40, 'spelling:vspline_damping:float32(0.5)': 20, 'spelling:vspline_damping:float32(8.0)': 20, 'spelling:vspline_damping:float64(0.25)': 20, 'spelling:vspline_damping:int(1.0)': 20, 'spelling:vspline_damping:int(10.0)': 20, 'spelling:vspline_damping:int(100.0)': 20, 'spelling:vspline_damping:int32(1.0)': 20, 'spelling:vspline_damping:int64(10.0)': 20, 'spelling:vspline_damping:ndarray(10.0)': 20, 'spelling:vspline_damping:ndarray(3.0)': 20, 'spelling:vspline_mindist:0-d array': 40, 'spelling:vspline_mindist:int': 60, 'spelling:vspline_mindist:np.float32': 40, 'spelling:vspline_mindist:np.int64': 60, 'spelling:vspline_poisson:float32(0.5)': 20, 'spelling:vspline_poisson:int(-1.0)': 20, 'spelling:vspline_poisson:int(0.0)': 20, 'spelling:vspline_poisson:int(1.0)': 20, 'spelling:vspline_poisson:int64(0.0)': 20, 'spelling:vspline_poisson:int64(1.0)': 20, 'spelling:vspline_poisson:ndarray(-1.0)': 20, 'spelling:vspline_poisson:ndarray(0.25)': 20},
+    "quick": {'eval:optimality': 1814, 'eval:prediction_agreement': 2476, 'eval:weight_scale_invariance': 126, 'eval:vanishing_weight': 96, 'fit:trend': 450, 'fit:spline': 480, 'fit:vspline': 300, 'informative_undamped_kappa_ge_1e6': 140, 'distinct_nontrivial': 1200, 'layout:weights:2d_fortran': 50, 'layout:weights:2d_transposed_view': 50, 'layout:weights:2d_strided': 55, 'layout:weights:2d_negative_stride': 55, 'layout:weights:2d_readonly_fortran': 50, 'layout:weights:1d_series': 80, 'layout:data:2d_fortran': 65, 'layout:data:2d_transposed_view': 65, 'layout:data:2d_strided': 75, 'layout:data:1d_series': 95, 'layout:coordinates:2d_fortran': 120, 'layout:coordinates:2d_transposed_view': 110, 'layout:coordinates:1d_series': 160, 'layout:force_coords:2d_fortran': 10, 'layout:weights_laid_out_differently_from_data': 540, 'class:undamped_fewer_forces_than_data_nonuniform_weights:spline': 159, 'class:undamped_fewer_forces_than_data_nonuniform_weights:vspline': 135, 'data_magnitude:1e+00': 497, 'data_magnitude:1e+03': 48, 'data_magnitude:1e+06': 46, 'data_magnitude:1e+09': 40, 'data_magnitude:1e+12': 40, 'data_magnitude:1e+15': 42, 'data_magnitude:1e-03': 36, 'data_magnitude:1e-06': 42, 'data_magnitude:1e-09': 39, 'data_magnitude:1e-12': 35, 'data_magnitude:1e-15': 38, 'weight_magnitude:1e+00': 324, 'weight_magnitude:1e+06': 38, 'weight_magnitude:1e+12': 36, 'weight_magnitude:1e-06': 28, 'weight_magnitude:1e-09': 38, 'weight_magnitude:1e-12': 37, 'weight_magnitude:1e-15': 34, 'weight_magnitude_class:spline_damped:1e+00': 2, 'weight_magnitude_class:spline_damped:1e+06': 2, 'weight_magnitude_class:spline_damped:1e+12': 2, 'weight_magnitude_class:spline_damped:1e-06': 2, 'weight_magnitude_class:spline_damped:1e-09': 2, 'weight_magnitude_class:spline_damped:1e-12': 2, 'weight_magnitude_class:spline_damped:1e-15': 2, 'weight_magnitude_class:spline_damped_fewer_forces:1e+00': 2, 'weight_magnitude_class:spline_damped_fewer_forces:1e+06': 2, 'weight_magnitude_class:spline_damped_fewer_forces:1e+12': 2, 'weight_magnitude_class:spline_damped_fewer_forces:1e-06': 2, 'weight_magnitude_class:spline_damped_fewer_forces:1e-09': 2, 'weight_magnitude_class:spline_damped_fewer_forces:1e-12': 2, 'weight_magnitude_class:spline_damped_fewer_forces:1e-15': 2, 'weight_magnitude_class:spline_undamped_fewer_forces:1e+00': 2, 'weight_magnitude_class:spline_undamped_fewer_forces:1e+06': 2, 'weight_magnitude_class:spline_undamped_fewer_forces:1e+12': 2, 'weight_magnitude_class:spline_undamped_fewer_forces:1e-06': 2, 'weight_magnitude_class:spline_undamped_fewer_forces:1e-09': 2, 'weight_magnitude_class:spline_undamped_fewer_forces:1e-12': 2, 'weight_magnitude_class:spline_undamped_fewer_forces:1e-15': 2, 'weight_magnitude_class:trend:1e+00': 2, 'weight_magnitude_class:trend:1e+06': 2, 'weight_magnitude_class:trend:1e+12': 2, 'weight_magnitude_class:trend:1e-06': 2, 'weight_magnitude_class:trend:1e-09': 2, 'weight_magnitude_class:trend:1e-12': 2, 'weight_magnitude_class:trend:1e-15': 2, 'weight_magnitude_class:vspline_damped:1e+00': 2, 'weight_magnitude_class:vspline_damped:1e+06': 2, 'weight_magnitude_class:vspline_damped:1e+12': 2, 'weight_magnitude_class:vspline_damped:1e-06': 2, 'weight_magnitude_class:vspline_damped:1e-09': 2, 'weight_magnitude_class:vspline_damped:1e-12': 2, 'weight_magnitude_class:vspline_damped:1e-15': 2, 'weight_magnitude_class:vspline_undamped_fewer_forces:1e+00': 2, 'weight_magnitude_class:vspline_undamped_fewer_forces:1e+06': 2, 'weight_magnitude_class:vspline_undamped_fewer_forces:1e+12': 2, 'weight_magnitude_class:vspline_undamped_fewer_forces:1e-06': 2, 'weight_magnitude_class:vspline_undamped_fewer_forces:1e-09': 2, 'weight_magnitude_class:vspline_undamped_fewer_forces:1e-12': 2, 'weight_magnitude_class:vspline_undamped_fewer_forces:1e-15': 2, 'weight_scale_invariance:magnitude:1e+06': 5, 'weight_scale_invariance:magnitude:1e+12': 5, 'weight_scale_invariance:magnitude:1e-06': 6, 'weight_scale_invariance:magnitude:1e-09': 5, 'weight_scale_invariance:magnitude:1e-12': 5, 'weight_scale_invariance:magnitude:1e-15': 5, 'history:error_then_fit:spline': 4, 'history:error_then_fit:trend': 4, 'history:error_then_fit:vspline': 4, 'history:reconfigure_after_use:spline': 4, 'history:reconfigure_after_use:trend': 4, 'history:reconfigure_after_use:vspline': 4, 'history:reconfigure_before_use:spline': 4, 'history:reconfigure_before_use:trend': 4, 'history:reconfigure_before_use:vspline': 4, 'history:reconfigure_held_in_chain:spline': 4, 'history:reconfigure_held_in_chain:trend': 4, 'history:reconfigure_held_in_chain:vspline': 4, 'history:refit_after_resetting_forces:spline': 4, 'history:refit_after_resetting_forces:vspline': 4, 'history:refit_after_use:spline': 4, 'history:refit_after_use:trend': 9, 'history:refit_after_use:vspline': 4, 'history:refit_directly:spline': 4, 'history:refit_directly:trend': 4, 'history:refit_directly:vspline': 4, 'history:refit_same_arrays_new_contents:spline': 4, 'history:refit_same_arrays_new_contents:trend': 4, 'history:refit_same_arrays_new_contents:vspline': 4, 'history:size_change:equal': 15, 'history:size_change:larger': 13, 'history:size_change:smaller': 14, 'history:trend_degree_down': 5, 'history:trend_degree_up': 5, 'history:use:filter': 5, 'history:use:grid': 6, 'history:use:jacobian': 5, 'history:use:nothing': 4, 'history:use:predict_data': 8, 'history:use:predict_elsewhere': 7, 'history:use:score': 6, 'history:via_attribute_assignment': 16, 'history:via_set_params': 15, 'fit_raised:vspline:ValueError': 4, 'eval:equivalent_spelling': 72, 'forces:spline:at_data': 104, 'forces:spline:data_points_in_another_order': 21, 'forces:spline:grid': 104, 'forces:spline:moved_subset': 102, 'forces:vspline:at_data': 53, 'forces:vspline:data_points_in_another_order': 10, 'forces:vspline:grid': 58, 'forces:vspline:moved_subset': 42, 'spelling:spline_damping:float32(0.5)': 1, 'spelling:spline_damping:float32(8.0)': 1, 'spelling:spline_damping:float64(0.25)': 1, 'spelling:spline_damping:int(1.0)': 1, 'spelling:spline_damping:int(10.0)': 1, 'spelling:spline_damping:int(100.0)': 1, 'spelling:spline_damping:int32(1.0)': 1, 'spelling:spline_damping:int64(10.0)': 1, 'spelling:spline_damping:ndarray(10.0)': 1, 'spelling:spline_damping:ndarray(3.0)': 1, 'spelling:spline_mindist:0-d array': 2, 'spelling:spline_mindist:int': 3, 'spelling:spline_mindist:np.float32': 2, 'spelling:spline_mindist:np.int64': 3, 'spelling:trend_degree:int32': 3, 'spelling:trend_degree:int64': 3, 'spelling:trend_degree:ndarray': 2, 'spelling:trend_degree:uint8': 2, 'spelling:vspline_damping:float32(0.5)': 1, 'spelling:vspline_damping:float32(8.0)': 1, 'spelling:vspline_damping:float64(0.25)': 1, 'spelling:vspline_damping:int(1.0)': 1, 'spelling:vspline_damping:int(10.0)': 1, 'spelling:vspline_damping:int(100.0)': 1, 'spelling:vspline_damping:int32(1.0)': 1, 'spelling:vspline_damping:int64(10.0)': 1, 'spelling:vspline_damping:ndarray(10.0)': 1, 'spelling:vspline_damping:ndarray(3.0)': 1, 'spelling:vspline_mindist:0-d array': 2, 'spelling:vspline_mindist:int': 3, 'spelling:vspline_mindist:np.float32': 2, 'spelling:vspline_mindist:np.int64': 3, 'spelling:vspline_poisson:float32(0.5)': 1, 'spelling:vspline_poisson:int(-1.0)': 1, 'spelling:vspline_poisson:int(0.0)': 1, 'spelling:vspline_poisson:int(1.0)': 1, 'spelling:vspline_poisson:int64(0.0)': 1, 'spelling:vspline_poisson:int64(1.0)': 1, 'spelling:vspline_poisson:ndarray(-1.0)': 1, 'spelling:vspline_poisson:ndarray(0.25)': 1, 'eval:force_layout': 368, 'duplicates:spline': 40, 'duplicates:spline:informative': 32, 'duplicates:vspline': 20, 'duplicates:vspline:informative': 19, 'force_layout:data_with_repeated_locations:spline': 40, 'force_layout:data_with_repeated_locations:vspline': 20},
+    "thorough": {'eval:optimality': 40824, 'eval:prediction_agreement': 55728, 'eval:weight_scale_invariance': 2844, 'eval:vanishing_weight': 2160, 'fit:trend': 11250, 'fit:spline': 12000, 'fit:vspline': 7500, 'informative_undamped_kappa_ge_1e6': 3500, 'distinct_nontrivial': 30000, 'layout:weights:2d_fortran': 1250, 'layout:weights:2d_transposed_view': 1250, 'layout:weights:2d_strided': 1375, 'layout:weights:2d_negative_stride': 1375, 'layout:weights:2d_readonly_fortran': 1250, 'layout:weights:1d_series': 2000, 'layout:data:2d_fortran': 1625, 'layout:data:2d_transposed_view': 1625, 'layout:data:2d_strided': 1875, 'layout:data:1d_series': 2375, 'layout:coordinates:2d_fortran': 3000, 'layout:coordinates:2d_transposed_view': 2750, 'layout:coordinates:1d_series': 4000, 'layout:force_coords:2d_fortran': 250, 'layout:weights_laid_out_differently_from_data': 13500, 'class:undamped_fewer_forces_than_data_nonuniform_weights:spline': 3577, 'class:undamped_fewer_forces_than_data_nonuniform_weights:vspline': 3037, 'data_magnitude:1e+00': 11182, 'data_magnitude:1e+03': 1080, 'data_magnitude:1e+06': 1035, 'data_magnitude:1e+09': 900, 'data_magnitude:1e+12': 900, 'data_magnitude:1e+15': 945, 'data_magnitude:1e-03': 810, 'data_magnitude:1e-06': 945, 'data_magnitude:1e-09': 877, 'data_magnitude:1e-12': 787, 'data_magnitude:1e-15': 855, 'weight_magnitude:1e+00': 7290, 'weight_magnitude:1e+06': 855, 'weight_magnitude:1e+12': 810, 'weight_magnitude:1e-06': 630, 'weight_magnitude:1e-09': 855, 'weight_magnitude:1e-12': 832, 'weight_magnitude:1e-15': 765, 'weight_magnitude_class:spline_damped:1e+00': 45, 'weight_magnitude_class:spline_damped:1e+06': 45, 'weight_magnitude_class:spline_damped:1e+12': 45, 'weight_magnitude_class:spline_damped:1e-06': 45, 'weight_magnitude_class:spline_damped:1e-09': 45, 'weight_magnitude_class:spline_damped:1e-12': 45, 'weight_magnitude_class:spline_damped:1e-15': 45, 'weight_magnitude_class:spline_damped_fewer_forces:1e+00': 45, 'weight_magnitude_class:spline_damped_fewer_forces:1e+06': 45, 'weight_magnitude_class:spline_damped_fewer_forces:1e+12': 45, 'weight_magnitude_class:spline_damped_fewer_forces:1e-06': 45, 'weight_magnitude_class:spline_damped_fewer_forces:1e-09': 45, 'weight_magnitude_class:spline_damped_fewer_forces:1e-12': 45, 'weight_magnitude_class:spline_damped_fewer_forces:1e-15': 45, 'weight_magnitude_class:spline_undamped_fewer_forces:1e+00': 45, 'weight_magnitude_class:spline_undamped_fewer_forces:1e+06': 45, 'weight_magnitude_class:spline_undamped_fewer_forces:1e+12': 45, 'weight_magnitude_class:spline_undamped_fewer_forces:1e-06': 45, 'weight_magnitude_class:spline_undamped_fewer_forces:1e-09': 45, 'weight_magnitude_class:spline_undamped_fewer_forces:1e-12': 45, 'weight_magnitude_class:spline_undamped_fewer_forces:1e-15': 45, 'weight_magnitude_class:trend:1e+00': 45, 'weight_magnitude_class:trend:1e+06': 45, 'weight_magnitude_class:trend:1e+12': 45, 'weight_magnitude_class:trend:1e-06': 45, 'weight_magnitude_class:trend:1e-09': 45, 'weight_magnitude_class:trend:1e-12': 45, 'weight_magnitude_class:trend:1e-15': 45, 'weight_magnitude_class:vspline_damped:1e+00': 45, 'weight_magnitude_class:vspline_damped:1e+06': 45, 'weight_magnitude_class:vspline_damped:1e+12': 45, 'weight_magnitude_class:vspline_damped:1e-06': 45, 'weight_magnitude_class:vspline_damped:1e-09': 45, 'weight_magnitude_class:vspline_damped:1e-12': 45, 'weight_magnitude_class:vspline_damped:1e-15': 45, 'weight_magnitude_class:vspline_undamped_fewer_forces:1e+00': 45, 'weight_magnitude_class:vspline_undamped_fewer_forces:1e+06': 45, 'weight_magnitude_class:vspline_undamped_fewer_forces:1e+12': 45, 'weight_magnitude_class:vspline_undamped_fewer_forces:1e-06': 45, 'weight_magnitude_class:vspline_undamped_fewer_forces:1e-09': 45, 'weight_magnitude_class:vspline_undamped_fewer_forces:1e-12': 45, 'weight_magnitude_class:vspline_undamped_fewer_forces:1e-15': 45, 'weight_scale_invariance:magnitude:1e+06': 112, 'weight_scale_invariance:magnitude:1e+12': 112, 'weight_scale_invariance:magnitude:1e-06': 135, 'weight_scale_invariance:magnitude:1e-09': 112, 'weight_scale_invariance:magnitude:1e-12': 112, 'weight_scale_invariance:magnitude:1e-15': 112, 'history:error_then_fit:spline': 80, 'history:error_then_fit:trend': 80, 'history:error_then_fit:vspline': 80, 'history:reconfigure_after_use:spline': 80, 'history:reconfigure_after_use:trend': 80, 'history:reconfigure_after_use:vspline': 80, 'history:reconfigure_before_use:spline': 80, 'history:reconfigure_before_use:trend': 80, 'history:reconfigure_before_use:vspline': 80, 'history:reconfigure_held_in_chain:spline': 80, 'history:reconfigure_held_in_chain:trend': 80, 'history:reconfigure_held_in_chain:vspline': 80, 'history:refit_after_resetting_forces:spline': 80, 'history:refit_after_resetting_forces:vspline': 80, 'history:refit_after_use:spline': 80, 'history:refit_after_use:trend': 180, 'history:refit_after_use:vspline': 80, 'history:refit_directly:spline': 80, 'history:refit_directly:trend': 80, 'history:refit_directly:vspline': 80, 'history:refit_same_arrays_new_contents:spline': 80, 'history:refit_same_arrays_new_contents:trend': 80, 'history:refit_same_arrays_new_contents:vspline': 80, 'history:size_change:equal': 337, 'history:size_change:larger': 303, 'history:size_change:smaller': 330, 'history:trend_degree_down': 128, 'history:trend_degree_up': 114, 'history:use:filter': 114, 'history:use:grid': 135, 'history:use:jacobian': 114, 'history:use:nothing': 108, 'history:use:predict_data': 189, 'history:use:predict_elsewhere': 168, 'history:use:score': 141, 'history:via_attribute_assignment': 378, 'history:via_set_params': 351, 'fit_raised:vspline:ValueError': 80, 'eval:equivalent_spelling': 1620, 'forces:spline:at_data': 2080, 'forces:spline:data_points_in_another_order': 420, 'forces:spline:grid': 2080, 'forces:spline:moved_subset': 2040, 'forces:vspline:at_data': 1060, 'forces:vspline:data_points_in_another_order': 200, 'forces:vspline:grid': 1160, 'forces:vspline:moved_subset': 840, 'spelling:spline_damping:float32(0.5)': 20, 'spelling:spline_damping:float32(8.0)': 20, 'spelling:spline_damping:float64(0.25)': 20, 'spelling:spline_damping:int(1.0)': 20, 'spelling:spline_damping:int(10.0)': 20, 'spelling:spline_damping:int(100.0)': 20, 'spelling:spline_damping:int32(1.0)': 20, 'spelling:spline_damping:int64(10.0)': 20, 'spelling:spline_damping:ndarray(10.0)': 20, 'spelling:spline_damping:ndarray(3.0)': 20, 'spelling:spline_mindist:0-d array': 40, 'spelling:spline_mindist:int': 60, 'spelling:spline_mindist:np.float32': 40, 'spelling:spline_mindist:np.int64': 60, 'spelling:trend_degree:int32': 60, 'spelling:trend_degree:int64': 60, 'spelling:trend_degree:ndarray': 40, 'spelling:trend_degree:uint8': 40, 'spelling:vspline_damping:float32(0.5)': 20, 'spelling:vspline_damping:float32(8.0)': 20, 'spelling:vspline_damping:float64(0.25)': 20, 'spelling:vspline_damping:int(1.0)': 20, 'spelling:vspline_damping:int(10.0)': 20, 'spelling:vspline_damping:int(100.0)': 20, 'spelling:vspline_damping:int32(1.0)': 20, 'spelling:vspline_damping:int64(10.0)': 20, 'spelling:vspline_damping:ndarray(10.0)': 20, 'spelling:vspline_damping:ndarray(3.0)': 20, 'spelling:vspline_mindist:0-d array': 40, 'spelling:vspline_mindist:int': 60, 'spelling:vspline_mindist:np.float32': 40, 'spelling:vspline_mindist:np.int64': 60, 'spelling:vspline_poisson:float32(0.5)': 20, 'spelling:vspline_poisson:int(-1.0)': 20, 'spelling:vspline_poisson:int(0.0)': 20, 'spelling:vspline_poisson:int(1.0)': 20, 'spelling:vspline_poisson:int64(0.0)': 20, 'spelling:vspline_poisson:int64(1.0)': 20, 'spelling:vspline_poisson:ndarray(-1.0)': 20, 'spelling:vspline_poisson:ndarray(0.25)': 20, 'eval:force_layout': 8280, 'duplicates:spline': 900, 'duplicates:spline:informative': 720, 'duplicates:vspline': 450, 'duplicates:vspline:informative': 427, 'force_layout:data_with_repeated_locations:spline': 900, 'force_layout:data_with_repeated_locations:vspline': 450},
 }
 JOBS = {"quick": 1, "thorough": 16}
 CASE_TIMEOUT_S = 300
@@ -80,8 +85,8 @@ CASE_TIMEOUT_S = 300
 
 def plan(tier):
     if tier == "quick":
-        return collections.OrderedDict(trend=600, spline=700, vspline=280, wscale=240, vanish=240, wmag=210, history=288, spellings=180)
-    return collections.OrderedDict(trend=15000, spline=17500, vspline=7000, wscale=6000, vanish=6000, wmag=5250, history=7200, spellings=4500)
+        return collections.OrderedDict(trend=600, spline=700, vspline=280, wscale=240, vanish=240, wmag=210, history=288, spellings=180, duplicates=150)
+    return collections.OrderedDict(trend=15000, spline=17500, vspline=7000, wscale=6000, vanish=6000, wmag=5250, history=7200, spellings=4500, duplicates=3750)
 
 
 # ----------------------------------------------------------------------
@@ -270,6 +275,24 @@ def install(tap, run):
         if (rows > cols or damped) and nonconstant and rec.east.size >= 3:
             run.mark_nontrivial(kind, repr(sorted(rec.cfg.items())), rec.east, rec.north, rec.data, rec.weights, rec.force)
 
+    def force_layout(rec, fitted):
+        """Default layout: one force under every datum, in data order - also when several data share a location."""
+        run.evaluated("force_layout")
+        n = rec.east.size
+        try:
+            fe, fn = _seq(fitted[0]), _seq(fitted[1])
+        except Exception:  # noqa: BLE001
+            fe = fn = np.zeros(0)
+        duplicated = n - np.unique(np.stack([rec.east, rec.north], axis=1), axis=0).shape[0] if n else 0
+        if duplicated:
+            run.count("force_layout:data_with_repeated_locations:" + rec.kind)
+        if fe.size != n or fn.size != n or not (np.array_equal(fe, rec.east) and np.array_equal(fn, rec.north)):
+            run.violation("force_layout",
+                          "%s with force_coords=None fitted to %d data (%d at repeated locations) holds %d forces%s: the documented default is one force at every datum, in data order"
+                          % (rec.kind, n, duplicated, fe.size, "" if fe.size != n else " at other places / in another order"),
+                          {"kind": rec.kind, "config": rec.cfg, "easting": rec.east, "northing": rec.north, "force_easting": fe, "force_northing": fn},
+                          key="force_layout:" + rec.kind)
+
     def post_trend_fit(ev):
         if ev.exc is not None:
             return
@@ -281,6 +304,8 @@ def install(tap, run):
             return
         obj = ev.obj
         rec = build(ev, "spline", {"mindist": float(obj.mindist), "damping": None if obj.damping is None else float(obj.damping)}, obj.force_coords)
+        if obj.force_coords is None:
+            force_layout(rec, getattr(obj, "force_coords_", None))
         judge_fit(ev, rec, obj.force_)
 
     def pre_vspline_fit(ev):
@@ -314,6 +339,8 @@ def install(tap, run):
             return
         rec = build(ev, "vspline", {"mindist": float(obj.mindist), "poisson": float(obj.poisson),
                                     "damping": None if obj.damping is None else float(obj.damping)}, expected)
+        if expected is None:
+            force_layout(rec, obj.force_coords)
         judge_fit(ev, rec, obj.force_)
 
     def post_predict(ev):
@@ -708,6 +735,53 @@ def _spellings(run, rng, verde, index):
     run.mark_nontrivial("spelling", what, label, plain, east, north, list(data) if isinstance(data, tuple) else data)
 
 
+def _duplicates(run, rng, verde, index):
+    """
+    Repeated stations / concatenated surveys: some (easting, northing) locations occur more than once, with different data values, fitted with
+    damping and the default force layout (one force under every datum). The design then has identical columns; with damping the problem is well
+    posed and the model is the damped optimum over all n_data forces. (Undamped fits of such data are singular: not generated.)
+    """
+    kind = "spline" if index % 3 else "vspline"
+    n = _size(rng, 10, 150 if kind == "spline" else 70, big_share=0.2, big_lo=70 if kind == "spline" else 35)
+    repeated = max(1, int(round(n * rng.uniform(0.05, 0.4))))
+    unique_e, unique_n = gen.cloud(rng, n - repeated)
+    again = rng.integers(0, n - repeated, repeated)  # a location may be visited three or more times
+    order = rng.permutation(n) if rng.random() < 0.7 else np.arange(n)  # shuffled together, or the second survey appended
+    east = np.concatenate([unique_e, unique_e[again]])[order]
+    north = np.concatenate([unique_n, unique_n[again]])[order]
+    data = _data(rng, kind, east, north, run)  # the noise term makes repeated stations disagree
+    comps = data if isinstance(data, tuple) else (data,)
+    spread = max(float(np.ptp(c)) for c in comps) or 1.0
+    comps = tuple(c + 0.05 * spread * rng.normal(size=n) for c in comps)
+    data = comps if kind == "vspline" else comps[0]
+    weights = None
+    if rng.random() < 0.6:
+        mag = _weight_magnitude(rng, run, p=0.2)
+        weights = (mag * _weights(rng, n), mag * _weights(rng, n) * gen.log_uniform(rng, 1e-1, 1e1)) if kind == "vspline" else mag * _weights(rng, n)
+    damping = float(10 ** rng.uniform(-8, 2))
+    with warnings.catch_warnings():
+        warnings.simplefilter("ignore")
+        if kind == "spline":
+            mindist = None if rng.random() < 0.7 else _mean_spacing(east, north) * gen.log_uniform(rng, 1e-3, 1.0)
+            est = verde.Spline(damping=damping) if mindist is None else verde.Spline(damping=damping, mindist=mindist)
+        else:
+            est = verde.VectorSpline2D(poisson=float(rng.uniform(-1, 1)), mindist=_mean_spacing(east, north) * gen.log_uniform(rng, 1e-2, 2.0), damping=damping)
+    coords, shaped, shaped_w, layouts = _present_fit(run, rng, kind, east, north, data, weights)
+    _fit(est, coords, shaped, shaped_w)
+    _predict(est, coords)
+    qe, qn = _queries(rng, east, north)
+    pred = _predict(est, (qe, qn))
+    rec = _lookup(est)
+    run.count("duplicates:%s:damping_1e%+03d" % (kind, int(np.floor(np.log10(damping) / 2) * 2)))
+    run.count("duplicates:%s" % kind)
+    if rec is not None and rec.lsq is not None and not rec.skip:
+        run.count("duplicates:%s:%s" % (kind, "informative" if rec.informative else "uninformative_for_predictions"))
+    run.sample("duplicates", {"kind": kind, "n": n, "repeated": repeated, "damping": damping, "layouts": layouts, "easting": east, "northing": north,
+                              "data": [c for c in comps], "prediction_at_queries": pred,
+                              "reference_kappa": None if rec is None or rec.lsq is None else rec.lsq.cond,
+                              "normalised_gradient": None if rec is None else rec.gradient})
+
+
 HISTORY_MODES = ("refit_after_use", "refit_directly", "refit_same_arrays_new_contents", "reconfigure_after_use", "reconfigure_before_use",
                  "reconfigure_held_in_chain", "error_then_fit", "refit_after_resetting_forces")
 
@@ -1010,6 +1084,8 @@ def run_case(run, tap, stream, index, rng):
         _history(run, rng, verde, index)
     elif stream == "spellings":
         _spellings(run, rng, verde, index)
+    elif stream == "duplicates":
+        _duplicates(run, rng, verde, index)
     elif stream == "wmag":
         # weight-magnitude classes: the same non-uniform relative weights times 1e-15 ... 1e12, for every estimator configuration
         configs = ["trend", "spline_damped", "spline_undamped_fewer_forces", "vspline_damped", "vspline_undamped_fewer_forces", "spline_damped_fewer_forces"]
